@@ -33,6 +33,12 @@ func (*inRange) Exit(node *Node) {
 			if rng, ok := n.Right.(*BinaryNode); ok && rng.Operator == ".." {
 				if from, ok := rng.Left.(*IntegerNode); ok {
 					if to, ok := rng.Right.(*IntegerNode); ok {
+						// In a type-checked tree (the literals carry their
+						// type) an operand without a static type is the nil
+						// literal or an environment member holding nil.
+						if from.Type() != nil && n.Left.Type() == nil {
+							return
+						}
 						Patch(node, &BinaryNode{
 							Operator: "and",
 							Left: &BinaryNode{
